@@ -596,6 +596,14 @@ func (c *FCtx) execRange(st *State, x *ast.RangeStmt, label string) []Flow {
 		}
 	}
 	_ = elemT
+	// A key declared by the range statement and never assigned in the body IS the loop counter: it is not observable
+	// after the loop, so `for i := range x` is executed as `for i := 0; i < len(x); i++` and an invariant written for
+	// either form holds for the other.  (A body that assigns to the key keeps the hidden counter: Go iterates on its own.)
+	if keyObj != nil && x.Tok == token.DEFINE && !c.assignsTo(x.Body, keyObj) {
+		ctrObj = keyObj.(*types.Var)
+		c.rangeCtr[x] = ctrObj
+		keyObj = nil
+	}
 	lp := &loopParts{node: x, label: label, body: x.Body.List}
 	lp.guard = func(s *State) *Term {
 		i := c.readPlace(s, Place{Cell: s.vars[ctrObj]}).(SV).T
@@ -620,6 +628,41 @@ func (c *FCtx) execRange(st *State, x *ast.RangeStmt, label string) []Flow {
 		return Sub(n, i)
 	}
 	return c.execLoop(st, lp)
+}
+
+// assignsTo: the block contains an assignment to, an increment of, or an address-of the variable obj
+func (c *FCtx) assignsTo(b *ast.BlockStmt, obj types.Object) bool {
+	found := false
+	is := func(e ast.Expr) bool {
+		id, ok := e.(*ast.Ident)
+		return ok && (c.info.Uses[id] == obj || c.info.Defs[id] == obj)
+	}
+	ast.Inspect(b, func(n ast.Node) bool {
+		switch y := n.(type) {
+		case *ast.AssignStmt:
+			for _, l := range y.Lhs {
+				if is(l) {
+					found = true
+				}
+			}
+		case *ast.IncDecStmt:
+			if is(y.X) {
+				found = true
+			}
+		case *ast.UnaryExpr:
+			if y.Op == token.AND && is(y.X) {
+				found = true
+			}
+		case *ast.RangeStmt:
+			if (y.Key != nil && is(y.Key)) || (y.Value != nil && is(y.Value)) {
+				found = true
+			}
+		case *ast.FuncLit:
+			found = true // captured: be conservative
+		}
+		return !found
+	})
+	return found
 }
 
 func (c *FCtx) zeroOrFresh(st *State, t types.Type) Val {
